@@ -24,7 +24,17 @@ import (
 type loopSite struct {
 	fn   *types.Func
 	pkg  *packages.Package
-	loop *ast.RangeStmt
+	loop ast.Stmt   // *ast.RangeStmt or *ast.ForStmt
+	body []ast.Stmt // the loop body
+}
+
+func (p *Program) isObjectSlice(t types.Type) bool {
+	sl, ok := t.Underlying().(*types.Slice)
+	if !ok {
+		return false
+	}
+	obj := p.Named("geojson", "Object")
+	return obj != nil && types.Identical(sl.Elem(), obj)
 }
 
 // childLoops: range loops over a `.children` slice in fn and in the repository
@@ -39,15 +49,23 @@ func (p *Program) childLoops(fn *types.Func, depth int, seen map[*types.Func]boo
 	ast.Inspect(fd.Body, func(n ast.Node) bool {
 		switch x := n.(type) {
 		case *ast.RangeStmt:
-			if strings.HasSuffix(types.ExprString(x.X), ".children") {
-				out = append(out, loopSite{fn, pkg, x})
+			if t := pkg.TypesInfo.TypeOf(x.X); t != nil && p.isObjectSlice(t) {
+				out = append(out, loopSite{fn, pkg, x, x.Body.List})
+			}
+		case *ast.ForStmt:
+			// for i := 0; i < len(xs); i++ { child := xs[i]; … }
+			if len(x.Body.List) > 0 {
+				if as, ok := x.Body.List[0].(*ast.AssignStmt); ok && as.Tok == token.DEFINE && len(as.Rhs) == 1 {
+					if ix, ok := ast.Unparen(as.Rhs[0]).(*ast.IndexExpr); ok {
+						if t := pkg.TypesInfo.TypeOf(ix.X); t != nil && p.isObjectSlice(t) {
+							out = append(out, loopSite{fn, pkg, x, x.Body.List})
+						}
+					}
+				}
 			}
 		case *ast.CallExpr:
-			if callee, ok := typeutil.Callee(pkg.TypesInfo, x).(*types.Func); ok && p.IsRepoPkg(callee.Pkg()) && callee.Pkg() == fn.Pkg() {
-				if sig := callee.Type().(*types.Signature); sig.Recv() != nil && fn.Type().(*types.Signature).Recv() != nil &&
-					types.Identical(sig.Recv().Type(), fn.Type().(*types.Signature).Recv().Type()) {
-					out = append(out, p.childLoops(callee, depth+1, seen)...)
-				}
+			if callee, ok := typeutil.Callee(pkg.TypesInfo, x).(*types.Func); ok && p.IsRepoPkg(callee.Pkg()) && callee.Pkg() == fn.Pkg() && !strings.HasPrefix(callee.Name(), "parseJSON") && callee.Name() != "Parse" {
+				out = append(out, p.childLoops(callee, depth+1, seen)...)
 			}
 		}
 		return true
@@ -89,7 +107,7 @@ func (p *Program) ruleCollectionFold(c *Check) {
 	var fold, build *loopSite
 	for i := range loops {
 		l := &loops[i]
-		if fold == nil && mentions(l.loop.Body, func(n ast.Node) bool {
+		if fold == nil && mentions(&ast.BlockStmt{List: l.body}, func(n ast.Node) bool {
 			as, ok := n.(*ast.AssignStmt)
 			if !ok {
 				return false
@@ -104,7 +122,7 @@ func (p *Program) ruleCollectionFold(c *Check) {
 			fold = l
 			continue
 		}
-		if build == nil && mentions(l.loop.Body, func(n ast.Node) bool {
+		if build == nil && mentions(&ast.BlockStmt{List: l.body}, func(n ast.Node) bool {
 			call, ok := n.(*ast.CallExpr)
 			return ok && strings.HasSuffix(types.ExprString(call.Fun), ".Insert")
 		}) {
@@ -136,7 +154,7 @@ func (p *Program) ruleCollectionFold(c *Check) {
 		"the rectangle accumulator is seeded with "+seeded+" before the fold: a child that the fold would skip (an empty one) can leak into the union")
 	// the counter of non-empty children: an integer local incremented in the loop body
 	counterName := ""
-	ast.Inspect(fold.loop.Body, func(n ast.Node) bool {
+	ast.Inspect(&ast.BlockStmt{List: fold.body}, func(n ast.Node) bool {
 		if ids, ok := n.(*ast.IncDecStmt); ok && ids.Tok == token.INC {
 			if id, ok := ids.X.(*ast.Ident); ok {
 				counterName = id.Name
@@ -152,7 +170,7 @@ func (p *Program) ruleCollectionFold(c *Check) {
 		what: "one iteration of the fold over the children: an empty child changes nothing; the first non-empty child sets the cached rectangle, later ones enlarge it to the union; the collection becomes non-empty; the counter of non-empty children grows by one",
 		run: func(in *e8interp) *e8out {
 			fr, out := p.bindInputs(in, fold.fn)
-			r := in.runBody(fr, fold.loop.Body.List)
+			r := in.runBody(fr, fold.body)
 			if r != nil && r != continueSignal {
 				e8fail("the fold step leaves the loop")
 			}
@@ -282,7 +300,7 @@ func (p *Program) ruleCollectionFold(c *Check) {
 		what: "the child index receives exactly the non-empty children, each under its own Rect()",
 		run: func(in *e8interp) *e8out {
 			fr, out := p.bindInputs(in, build.fn)
-			out.signal = in.runBody(fr, build.loop.Body.List)
+			out.signal = in.runBody(fr, build.body)
 			return out
 		},
 		spec: func(a *e8assign, n *e8names, out *e8out) string {
@@ -304,7 +322,7 @@ func (p *Program) ruleCollectionFold(c *Check) {
 			if len(args) < 4 {
 				return "unexpected Insert arguments"
 			}
-			child := types.ExprString(build.loop.Value)
+			child := strings.TrimSuffix(strings.TrimPrefix(eName, "Empty("), ")")
 			want := [][2]string{{"Min.X", "Min.Y"}, {"Max.X", "Max.Y"}}
 			for i, w := range want {
 				box := args[1+i]
@@ -352,7 +370,7 @@ func (p *Program) ruleCollectionSearch(c *Check) {
 			what: "the linear arm calls the iterator exactly for the non-empty children whose Rect() meets the query rectangle (closed boxes), with the child itself, and stops when it returns false",
 			run: func(in *e8interp) *e8out {
 				fr, out := p.bindInputs(in, ls.fn)
-				out.signal = in.runBody(fr, ls.loop.Body.List)
+				out.signal = in.runBody(fr, ls.body)
 				return out
 			},
 			pre: func(a *e8assign, n *e8names) bool {
@@ -388,7 +406,7 @@ func (p *Program) ruleCollectionSearch(c *Check) {
 					a.R(crect+".Min.Y") <= a.R(query+".Max.Y") && a.R(crect+".Max.Y") >= a.R(query+".Min.Y")
 				want := !a.B(eName) && meets
 				calls := out.in.called(iterName)
-				child := types.ExprString(ls.loop.Value)
+				child := strings.TrimSuffix(strings.TrimPrefix(eName, "Empty("), ")")
 				if want != (len(calls) == 1) {
 					return fmt.Sprintf("iterator called %d times for a child that is empty=%v and whose box meets the query=%v", len(calls), a.B(eName), meets)
 				}
@@ -462,6 +480,28 @@ func (p *Program) ruleFolds(c *Check) {
 		if fd == nil {
 			c.Undecided("E10.forall", f.pkg+"."+f.typ+".Valid", "", "function not found")
 			continue
+		}
+		// a Valid that merely forwards to a helper is judged by the helper
+		for depth := 0; depth < 3; depth++ {
+			if len(fd.Body.List) != 1 {
+				break
+			}
+			ret, ok := fd.Body.List[0].(*ast.ReturnStmt)
+			if !ok || len(ret.Results) != 1 {
+				break
+			}
+			call, ok := ast.Unparen(ret.Results[0]).(*ast.CallExpr)
+			if !ok {
+				break
+			}
+			callee, _ := typeutil.Callee(p.DeclPkg(fn).TypesInfo, call).(*types.Func)
+			if callee == nil || !p.IsRepoPkg(callee.Pkg()) || p.Decl(callee) == nil || callee.Name() == "Valid" && len(call.Args) == 0 && depth > 0 {
+				break
+			}
+			if sel, ok := call.Fun.(*ast.SelectorExpr); !ok || len(call.Args) != 0 || types.ExprString(sel.X) != fd.Recv.List[0].Names[0].Name {
+				break
+			}
+			fn, fd = callee, p.Decl(callee)
 		}
 		// every range loop tests its element; a failed test makes the result false; nothing resets it
 		loops, tested := 0, 0
